@@ -16,7 +16,7 @@
 (* coverage shows that no branch is vacuous.                               *)
 (***************************************************************************)
 EXTENDS Rewrite
-CONSTANTS Inputs       \* set of [c: configuration, s: sender, m: recipients, e: set of configurations an edit may produce]
+CONSTANTS Tier         \* "tiny", "quick" or "thorough": selects the bounded input domain Inputs (end of the module)
 VARIABLES files,       \* the control files now
           mem,         \* what qmail-send holds in memory (after defaults)
           hist,        \* observable history of the control files (for the monitor)
@@ -41,95 +41,6 @@ GetControls(f) == [me |-> f.me,
                    lo |-> IF f.loabs = 1 THEN <<f.me>> ELSE f.lo,       \* control_readfile(...,1)
                    ph |-> f.ph, vd |-> f.vd]
 ReGet(m, f)    == [m EXCEPT !.lo = IF f.loabs = 1 THEN <<m.me>> ELSE f.lo, !.vd = f.vd]
-
-Init == \E in \in Inputs :
-          /\ files = in.c /\ mem = GetControls(in.c) /\ hist = <<[k |-> "start", c |-> in.c]>>
-          /\ snd = in.s /\ msg = in.m /\ edits = in.e
-          /\ n = 1 /\ pc = "copy" /\ addr = <<>> /\ i = 0 /\ at = 0
-          /\ outL = <<>> /\ outR = <<>> /\ dl = <<>> /\ round = 0
-
-Keep(S) == UNCHANGED S
-ctl == <<files, mem, hist, snd, msg, round, edits>>
-
-\* ---- rewrite() ------------------------------------------------------------
-Copy   == /\ pc = "copy"
-          /\ addr' = msg[n] /\ i' = Rchr(msg[n], Len(msg[n]), AT)
-          /\ pc' = IF i' = Len(msg[n]) THEN "noat" ELSE "pct"
-          /\ Keep(<<ctl, n, at, outL, outR, dl>>)
-NoAt   == /\ pc = "noat"
-          /\ addr' = addr \o <<AT>> \o mem.env /\ pc' = "pct"
-          /\ Keep(<<ctl, n, i, at, outL, outR, dl>>)
-PctNotListed == /\ pc = "pct" /\ ~MapHas(mem.ph, From(addr, i + 1))
-                /\ pc' = "at" /\ Keep(<<ctl, n, addr, i, at, outL, outR, dl>>)
-PctNoPercent == /\ pc = "pct" /\ MapHas(mem.ph, From(addr, i + 1)) /\ Rchr(addr, i, PCT) = i
-                /\ pc' = "at" /\ Keep(<<ctl, n, addr, i, at, outL, outR, dl>>)
-PctRewrite   == /\ pc = "pct" /\ MapHas(mem.ph, From(addr, i + 1))
-                /\ LET j == Rchr(addr, i, PCT)
-                   IN /\ j # i
-                      /\ addr' = [SubSeq(addr, 1, i) EXCEPT ![j + 1] = AT]      \* addr.len = i; addr.s[j] = '@'
-                      /\ i' = j
-                /\ Keep(<<ctl, n, pc, at, outL, outR, dl>>)
-FindAt == /\ pc = "at"
-          /\ at' = Rchr(addr, Len(addr), AT) /\ pc' = "loc"
-          /\ Keep(<<ctl, n, addr, i, outL, outR, dl>>)
-
-\* the T record is complete: append to the channel file, next record (todo_do)
-Emit(ch, a) == /\ IF ch = 0 THEN outL' = Append(outL, a) /\ Keep(outR) ELSE outR' = Append(outR, a) /\ Keep(outL)
-               /\ IF n < Len(msg) THEN n' = n + 1 /\ pc' = "copy" ELSE n' = 1 /\ pc' = "pass"
-               /\ Keep(<<ctl, addr, i, at, dl>>)
-
-LocHit  == /\ pc = "loc" /\ MapHas(mem.lo, From(addr, at + 1)) /\ Emit(0, addr)
-LocMiss == /\ pc = "loc" /\ ~MapHas(mem.lo, From(addr, at + 1))
-           /\ pc' = "vd" /\ i' = 0 /\ Keep(<<ctl, n, addr, at, outL, outR, dl>>)
-
-Cand(j) == j = 0 \/ j = at + 1 \/ j = Len(addr) \/ (j > at /\ j < Len(addr) /\ addr[j + 1] = DOT)
-VdSkip  == /\ pc = "vd" /\ ~Cand(i)                                     \* i <= addr.len always holds here
-           /\ i' = i + 1 /\ Keep(<<ctl, n, pc, addr, at, outL, outR, dl>>)
-VdMiss  == /\ pc = "vd" /\ Cand(i) /\ ~VdHit(mem.vd, From(addr, i)) /\ i < Len(addr)
-           /\ i' = i + 1 /\ Keep(<<ctl, n, pc, addr, at, outL, outR, dl>>)
-VdEnd   == /\ pc = "vd" /\ Cand(i) /\ ~VdHit(mem.vd, From(addr, i)) /\ i = Len(addr) /\ Emit(1, addr)
-VdExcept == /\ pc = "vd" /\ Cand(i) /\ VdHit(mem.vd, From(addr, i)) /\ VdVal(mem.vd, From(addr, i)) = <<>>
-            /\ Emit(1, addr)                                            \* if (!*x) break;
-VdTag   == /\ pc = "vd" /\ Cand(i) /\ VdHit(mem.vd, From(addr, i))
-           /\ LET x == VdVal(mem.vd, From(addr, i)) IN x # <<>> /\ Emit(0, x \o <<DASH>> \o addr)
-
-\* ---- pass: one delivery command per record, local channel then remote; senderadd() -------------
-SenderAddAlg(s, r) ==
-  LET len == Len(s)
-  IN IF len >= 4 /\ SubSeq(s, len - 3, len) = VerpTail
-       THEN LET j == Rchr(s, len - 4, AT)
-                k == Rchr(r, Len(r), AT)                                \* str_rchr
-            IN IF k < Len(r) /\ j + 5 <= len
-                 THEN SubSeq(s, 1, j) \o SubSeq(r, 1, k) \o <<EQ>> \o From(r, k + 1) \o <<AT>> \o SubSeq(s, j + 2, len - 4)
-                 ELSE s
-       ELSE s
-Pass == /\ pc = "pass"
-        /\ LET all == outL \o outR
-           IN /\ dl' = Append(dl, [s |-> SenderAddAlg(snd, all[n]), r |-> all[n]])
-              /\ IF n < Len(all) THEN n' = n + 1 /\ Keep(pc) ELSE n' = 1 /\ pc' = "idle"
-        /\ Keep(<<ctl, addr, i, at, outL, outR>>)
-
-\* ---- the operator edits control files, may send HUP, the same envelope arrives again -----------
-Edit == /\ pc = "idle" /\ round = 0
-        /\ \E f \in edits : files' = f /\ hist' = Append(hist, [k |-> "edit", c |-> f])
-        /\ round' = 1 /\ Keep(<<mem, snd, msg, edits, n, pc, addr, i, at, outL, outR, dl>>)
-Hup  == /\ pc = "idle" /\ round = 1
-        /\ mem' = ReGet(mem, files) /\ hist' = Append(hist, [k |-> "hup", c |-> files])      \* regetcontrols()
-        /\ round' = 2 /\ Keep(<<files, snd, msg, edits, n, pc, addr, i, at, outL, outR, dl>>)
-NoHup == /\ pc = "idle" /\ round = 1
-         /\ round' = 2 /\ Keep(<<files, mem, hist, snd, msg, edits, n, pc, addr, i, at, outL, outR, dl>>)
-Again == /\ pc = "idle" /\ round = 2
-         /\ round' = 3 /\ pc' = "copy" /\ n' = 1 /\ outL' = <<>> /\ outR' = <<>> /\ dl' = <<>>
-         /\ Keep(<<files, mem, hist, snd, msg, edits, addr, i, at>>)
-
-Next == \/ Copy \/ NoAt \/ PctNotListed \/ PctNoPercent \/ PctRewrite \/ FindAt \/ LocHit \/ LocMiss
-        \/ VdSkip \/ VdMiss \/ VdEnd \/ VdExcept \/ VdTag \/ Pass \/ Edit \/ Hup \/ NoHup \/ Again
-Spec == Init /\ [][Next]_vars
-
-\* ---- invariants: the monitors ---------------------------------------------------------------
-RouteOk == (pc = "pass" /\ n = 1) => MsgVerdict(Effective(hist), msg, outL, outR) = ""
-VerpOk  == pc = "idle" => VerpFirstBad(snd, dl) = 0
-InDomain == ~DupKeys(files)
 
 (***************************************************************************)
 (* The bounded input domain.  One-letter labels: domains a.t, b.a.t,       *)
@@ -223,7 +134,100 @@ Fam4(len) ==
   {In(c, s, m, SmallCfgs \ {c}) : c \in SmallCfgs, s \in Senders, m \in SeqsUpTo(SmallAddrs, 1)}
   \cup {In(c, VerpSender, m, SmallCfgs \ {c}) : c \in SmallCfgs, m \in SeqsUpTo(SmallAddrs, len)}
 
-InputsQuick    == Fam1(2, DomsCore \cup {dAup, dY, dT, dotA, dBA, <<>>}) \cup Fam2(1, {dA, dO}, {dA, dAup, dO, dB}) \cup Fam3(1) \cup Fam4(3)
-InputsThorough == Fam1(3, DomsCore \cup DomsNear) \cup Fam2(2, {dA, dO, dB}, {dA, dAup, dO, dB, dZ}) \cup Fam3(2) \cup Fam4(4)
-InputsTiny     == Fam1(1, DomsCore) \cup Fam4(2)
+\* set of [c: configuration, s: sender, m: recipients, e: set of configurations an edit may produce]
+\* (one definition selected by Tier: TLC evaluates every constant definition eagerly)
+Inputs ==
+  CASE Tier = "quick"    -> Fam1(2, DomsCore \cup {dAup, dY, dT, dotA, dBA, <<>>}) \cup Fam2(1, {dA, dO}, {dA, dAup, dO, dB}) \cup Fam3(1) \cup Fam4(3)
+    [] Tier = "thorough" -> Fam1(3, DomsCore \cup DomsNear) \cup Fam2(2, {dA, dO, dB}, {dA, dAup, dO, dB, dZ}) \cup Fam3(2) \cup Fam4(4)
+    [] OTHER             -> Fam1(1, DomsCore) \cup Fam4(2)
+
+Init == \E in \in Inputs :
+          /\ files = in.c /\ mem = GetControls(in.c) /\ hist = <<[k |-> "start", c |-> in.c]>>
+          /\ snd = in.s /\ msg = in.m /\ edits = in.e
+          /\ n = 1 /\ pc = "copy" /\ addr = <<>> /\ i = 0 /\ at = 0
+          /\ outL = <<>> /\ outR = <<>> /\ dl = <<>> /\ round = 0
+
+Keep(S) == UNCHANGED S
+ctl == <<files, mem, hist, snd, msg, round, edits>>
+
+\* ---- rewrite() ------------------------------------------------------------
+Copy   == /\ pc = "copy"
+          /\ addr' = msg[n] /\ i' = Rchr(msg[n], Len(msg[n]), AT)
+          /\ pc' = IF i' = Len(msg[n]) THEN "noat" ELSE "pct"
+          /\ Keep(<<ctl, n, at, outL, outR, dl>>)
+NoAt   == /\ pc = "noat"
+          /\ addr' = addr \o <<AT>> \o mem.env /\ pc' = "pct"
+          /\ Keep(<<ctl, n, i, at, outL, outR, dl>>)
+PctNotListed == /\ pc = "pct" /\ ~MapHas(mem.ph, From(addr, i + 1))
+                /\ pc' = "at" /\ Keep(<<ctl, n, addr, i, at, outL, outR, dl>>)
+PctNoPercent == /\ pc = "pct" /\ MapHas(mem.ph, From(addr, i + 1)) /\ Rchr(addr, i, PCT) = i
+                /\ pc' = "at" /\ Keep(<<ctl, n, addr, i, at, outL, outR, dl>>)
+PctRewrite   == /\ pc = "pct" /\ MapHas(mem.ph, From(addr, i + 1))
+                /\ LET j == Rchr(addr, i, PCT)
+                   IN /\ j # i
+                      /\ addr' = [SubSeq(addr, 1, i) EXCEPT ![j + 1] = AT]      \* addr.len = i; addr.s[j] = '@'
+                      /\ i' = j
+                /\ Keep(<<ctl, n, pc, at, outL, outR, dl>>)
+FindAt == /\ pc = "at"
+          /\ at' = Rchr(addr, Len(addr), AT) /\ pc' = "loc"
+          /\ Keep(<<ctl, n, addr, i, outL, outR, dl>>)
+
+\* the T record is complete: append to the channel file, next record (todo_do)
+Emit(ch, a) == /\ IF ch = 0 THEN outL' = Append(outL, a) /\ Keep(outR) ELSE outR' = Append(outR, a) /\ Keep(outL)
+               /\ IF n < Len(msg) THEN n' = n + 1 /\ pc' = "copy" ELSE n' = 1 /\ pc' = "pass"
+               /\ Keep(<<ctl, addr, i, at, dl>>)
+
+LocHit  == /\ pc = "loc" /\ MapHas(mem.lo, From(addr, at + 1)) /\ Emit(0, addr)
+LocMiss == /\ pc = "loc" /\ ~MapHas(mem.lo, From(addr, at + 1))
+           /\ pc' = "vd" /\ i' = 0 /\ Keep(<<ctl, n, addr, at, outL, outR, dl>>)
+
+Cand(j) == j = 0 \/ j = at + 1 \/ j = Len(addr) \/ (j > at /\ j < Len(addr) /\ addr[j + 1] = DOT)
+VdSkip  == /\ pc = "vd" /\ ~Cand(i)                                     \* i <= addr.len always holds here
+           /\ i' = i + 1 /\ Keep(<<ctl, n, pc, addr, at, outL, outR, dl>>)
+VdMiss  == /\ pc = "vd" /\ Cand(i) /\ ~VdHit(mem.vd, From(addr, i)) /\ i < Len(addr)
+           /\ i' = i + 1 /\ Keep(<<ctl, n, pc, addr, at, outL, outR, dl>>)
+VdEnd   == /\ pc = "vd" /\ Cand(i) /\ ~VdHit(mem.vd, From(addr, i)) /\ i = Len(addr) /\ Emit(1, addr)
+VdExcept == /\ pc = "vd" /\ Cand(i) /\ VdHit(mem.vd, From(addr, i)) /\ VdVal(mem.vd, From(addr, i)) = <<>>
+            /\ Emit(1, addr)                                            \* if (!*x) break;
+VdTag   == /\ pc = "vd" /\ Cand(i) /\ VdHit(mem.vd, From(addr, i))
+           /\ LET x == VdVal(mem.vd, From(addr, i)) IN x # <<>> /\ Emit(0, x \o <<DASH>> \o addr)
+
+\* ---- pass: one delivery command per record, local channel then remote; senderadd() -------------
+SenderAddAlg(s, r) ==
+  LET len == Len(s)
+  IN IF len >= 4 /\ SubSeq(s, len - 3, len) = VerpTail
+       THEN LET j == Rchr(s, len - 4, AT)
+                k == Rchr(r, Len(r), AT)                                \* str_rchr
+            IN IF k < Len(r) /\ j + 5 <= len
+                 THEN SubSeq(s, 1, j) \o SubSeq(r, 1, k) \o <<EQ>> \o From(r, k + 1) \o <<AT>> \o SubSeq(s, j + 2, len - 4)
+                 ELSE s
+       ELSE s
+Pass == /\ pc = "pass"
+        /\ LET all == outL \o outR
+           IN /\ dl' = Append(dl, [s |-> SenderAddAlg(snd, all[n]), r |-> all[n]])
+              /\ IF n < Len(all) THEN n' = n + 1 /\ Keep(pc) ELSE n' = 1 /\ pc' = "idle"
+        /\ Keep(<<ctl, addr, i, at, outL, outR>>)
+
+\* ---- the operator edits control files, may send HUP, the same envelope arrives again -----------
+Edit == /\ pc = "idle" /\ round = 0
+        /\ \E f \in edits : files' = f /\ hist' = Append(hist, [k |-> "edit", c |-> f])
+        /\ round' = 1 /\ Keep(<<mem, snd, msg, edits, n, pc, addr, i, at, outL, outR, dl>>)
+Hup  == /\ pc = "idle" /\ round = 1
+        /\ mem' = ReGet(mem, files) /\ hist' = Append(hist, [k |-> "hup", c |-> files])      \* regetcontrols()
+        /\ round' = 2 /\ Keep(<<files, snd, msg, edits, n, pc, addr, i, at, outL, outR, dl>>)
+NoHup == /\ pc = "idle" /\ round = 1
+         /\ round' = 2 /\ Keep(<<files, mem, hist, snd, msg, edits, n, pc, addr, i, at, outL, outR, dl>>)
+Again == /\ pc = "idle" /\ round = 2
+         /\ round' = 3 /\ pc' = "copy" /\ n' = 1 /\ outL' = <<>> /\ outR' = <<>> /\ dl' = <<>>
+         /\ Keep(<<files, mem, hist, snd, msg, edits, addr, i, at>>)
+
+Next == \/ Copy \/ NoAt \/ PctNotListed \/ PctNoPercent \/ PctRewrite \/ FindAt \/ LocHit \/ LocMiss
+        \/ VdSkip \/ VdMiss \/ VdEnd \/ VdExcept \/ VdTag \/ Pass \/ Edit \/ Hup \/ NoHup \/ Again
+Spec == Init /\ [][Next]_vars
+
+\* ---- invariants: the monitors ---------------------------------------------------------------
+RouteOk == (pc = "pass" /\ n = 1) => MsgVerdict(Effective(hist), msg, outL, outR) = ""
+VerpOk  == pc = "idle" => VerpFirstBad(snd, dl) = 0
+InDomain == ~DupKeys(files)
+
 =============================================================================
